@@ -92,6 +92,13 @@ def exp_obs(pattern, part, content, default_charset=None):
         return content[:pattern[1]]
     if k in ('read_all', 'pipe', 'iter', 'data'):
         return content
+    if k == 'reads':
+        out, pos = [], 0
+        for n in pattern[1]:
+            out.append(content[pos:pos + n])
+            pos += n
+        out.append(content[pos:])
+        return out
     if k == 'chunked':
         n = pattern[1]
         return [content[i:i + n] for i in range(0, len(content), n)]
@@ -199,6 +206,8 @@ def consume_sync(part, pattern, mode):
         return s.read(pattern[1])
     if k == 'read_all':
         return s.read()
+    if k == 'reads':
+        return [s.read(n) for n in pattern[1]] + [s.read()]
     if k == 'chunked':
         out = []
         while True:
@@ -265,6 +274,8 @@ async def consume_async(part, pattern, mode):
         return await s.read(pattern[1])
     if k == 'read_all':
         return await s.read()
+    if k == 'reads':
+        return [await s.read(n) for n in pattern[1]] + [await s.read()]
     if k == 'chunked':
         out = []
         while True:
